@@ -241,6 +241,9 @@ func (e *Engine) spawn(p *Path, cc *ssa.CallCommon, args []Value, fr *Frame, in 
 		}
 		nf = e.NewFrame(o.Fn, args, bind)
 	}
+	if e.Race != nil {
+		e.Race.Fork(p, parent.Pid, pid)
+	}
 	// eager: run the child's initial local segment inside this path
 	p.Suspended = append(p.Suspended, p.Cur)
 	p.Cur = &Ctx{Pid: pid, Frames: []*Frame{nf}}
@@ -331,6 +334,10 @@ func (s *Sys) recvVariants(pr *Proc, ch *Term, resultOf func(v Value, ok *Term) 
 				}
 				v := e.iteVal(f, hv, zero)
 				q.Store(e, pr.hoFull, B.False)
+				if e.Race != nil {
+					e.Race.Acquire(q, pr.Pid, fmt.Sprintf("ho%d", pr.Pid), f)
+					e.Race.Acquire(q, pr.Pid, fmt.Sprintf("close%d", o.Base), B.Not(f))
+				}
 				finish(q, resultOf(v, f))
 			}})
 		} else {
@@ -351,6 +358,13 @@ func (s *Sys) recvVariants(pr *Proc, ch *Term, resultOf func(v Value, ok *Term) 
 					e.setChanSlot(q, o, i, e.iteVal(ne, nxt, e.chanSlot(q, o, i)))
 				}
 				q.Store(e, o.Base+1, B.Ite(ne, B.Sub(c, B.BV(8, 1)), c))
+				if e.Race != nil {
+					e.Race.Acquire(q, pr.Pid, fmt.Sprintf("ch%d#0", o.Base), ne)
+					e.Race.Acquire(q, pr.Pid, fmt.Sprintf("close%d", o.Base), B.Not(ne))
+					for i := 0; i+1 < o.Cap; i++ {
+						e.Race.Move(q, fmt.Sprintf("ch%d#%d", o.Base, i+1), fmt.Sprintf("ch%d#%d", o.Base, i), ne)
+					}
+				}
 				finish(q, resultOf(v, ne))
 			}})
 		}
@@ -429,6 +443,12 @@ func (s *Sys) sendVariants(pr *Proc, ch *Term, val Value, finish func(q *Path), 
 			}
 			en := B.And(isThis, B.Not(closed), any)
 			out = append(out, variant{what: "send " + o.Label, en: en, extra: B.And(extra, pick), peers: peers, apply: func(q *Path) {
+				if e.Race != nil {
+					for _, pi := range peers {
+						e.Race.Release(q, pr.Pid, fmt.Sprintf("ho%d", pi.Pid), pi.Cond)
+					}
+					e.Race.tick(q, pr.Pid)
+				}
 				for _, pi := range peers {
 					rq := s.Procs[pi.Pid]
 					q.Store(e, rq.hoFull, B.Or(q.Load(e, rq.hoFull), pi.Cond))
@@ -447,6 +467,12 @@ func (s *Sys) sendVariants(pr *Proc, ch *Term, val Value, finish func(q *Path), 
 				for i := 0; i < o.Cap; i++ {
 					at := B.Eq(c, B.BV(8, uint64(i)))
 					e.setChanSlot(q, o, i, e.iteVal(at, val, e.chanSlot(q, o, i)))
+					if e.Race != nil {
+						e.Race.Release(q, pr.Pid, fmt.Sprintf("ch%d#%d", o.Base, i), at)
+					}
+				}
+				if e.Race != nil {
+					e.Race.tick(q, pr.Pid)
 				}
 				q.Store(e, o.Base+1, B.Add(c, B.BV(8, 1)))
 				finish(q)
@@ -473,6 +499,9 @@ func (s *Sys) closeVariants(ch *Term, finish func(q *Path)) []variant {
 		out = append(out, variant{what: "close-closed " + o.Label, en: B.And(isThis, closed), extra: B.True, apply: func(q *Path) { e.forkFault(q, B.True, "close of closed channel") }})
 		out = append(out, variant{what: "close " + o.Label, en: B.And(isThis, B.Not(closed)), extra: B.True, apply: func(q *Path) {
 			q.Store(e, o.Base, B.True)
+			if e.Race != nil && q.Cur != nil {
+				e.Race.ReleaseJoin(q, q.Cur.Pid, fmt.Sprintf("close%d", o.Base))
+			}
 			finish(q)
 		}})
 	}
